@@ -316,7 +316,7 @@ def _candidates(key, mode):
     if not isinstance(key, str):
         return []
     rev = _reverse_tables()
-    out = list(rev[mode].get(key, ()))
+    out = list(rev.get(mode, {}).get(key, ()))
     if mode == "curses":
         m = re.fullmatch(r"x([0-9A-F]{2})", key)
         if m:
